@@ -329,6 +329,65 @@ func runC04(c *engine.Ctx) {
 	}
 	c.Count("U-small.max_len", int64(nmax))
 
+	// ---- U-chain: payload chains made of up to three generic headers (next type known / unknown / none, critical
+	// flag, announced length 0, 3, 4, 5, 8, 12) with their bodies, for six first-payload types and through the
+	// whole-message decoder: a chain walker that treats runs of skipped payloads specially shows here
+	{
+		nexts := []byte{0, 40, 49, 200}
+		flags := []byte{0, 0x80}
+		lens := []int{0, 3, 4, 5, 8, 12}
+		firsts := []uint8{0, 33, 40, 41, 49, 200}
+		chainDec := map[uint8]*decoder{}
+		for _, ft := range firsts {
+			tt := ft
+			chainDec[ft] = &decoder{fmt.Sprintf("Container.Decode(first=%d)", ft), func(b []byte) (string, error) {
+				var cc message.IKEPayloadContainer
+				if err := cc.Decode(tt, b); err != nil {
+					return "", err
+				}
+				return ref.CanonPayloads(univ.ProjectPayloads(cc)), nil
+			}, nil}
+		}
+		hdrs := make([][]byte, 0, 48)
+		for _, n := range nexts {
+			for _, f := range flags {
+				for _, l := range lens {
+					h := []byte{n, f, 0, byte(l)}
+					for i := 4; i < l; i++ {
+						h = append(h, byte(0x10+i))
+					}
+					hdrs = append(hdrs, h)
+				}
+			}
+		}
+		msgDec := byName["Message.Decode"]
+		idx := 0
+		for _, h1 := range hdrs {
+			for _, h2 := range hdrs {
+				idx++
+				if !c.Mine() {
+					continue
+				}
+				for k := 0; k <= len(hdrs); k++ {
+					b := append(append([]byte(nil), h1...), h2...)
+					if k < len(hdrs) {
+						if !c.Thorough() && (k+idx)%4 != 0 {
+							continue // quick: every pair of headers, every fourth third header
+						}
+						b = append(b, hdrs[k]...)
+					}
+					for _, ft := range firsts {
+						run(chainDec[ft], b, "U-chain")
+					}
+					if msgDec != nil && k%6 == 0 {
+						m := append([]byte{1, 2, 3, 4, 5, 6, 7, 8, 1, 2, 3, 4, 5, 6, 7, 8, firsts[(idx+k)%len(firsts)], 0x20, 37, 0x08, 0, 0, 0, 1, 0, 0, 0, byte(28 + len(b))}, b...)
+						run(msgDec, m, "U-chain")
+					}
+				}
+			}
+		}
+	}
+
 	// ---- U-sweep
 	sweep8(c, byName, run)
 	sweep16(c, byName, run)
